@@ -40,7 +40,7 @@ B('H3-wrong-component', ['C10'], 'frame.py', 'Frame.equals',
 B('H3-constant-option', ['C10'], 'bus.py', 'Bus.equals',
   'compare_dtype=compare_dtype,', 'compare_dtype=False,', 'H3', 'Bus.equals')
 B('H4-identity-broken', ['C10'], 'series.py', 'Series.equals',
-  'if id(other) == id(self):', 'if id(other) != id(self):', 'H4', 'Series.equals')
+  'if skipna and id(other) == id(self):', 'if skipna and id(other) != id(self):', 'H4', 'Series.equals')
 B('H5-hash-dtypes', ['C10'], 'frame.py', 'FrameHE.__hash__',
   'tuple(self.columns.values),', 'tuple(self.columns.values), tuple(dt.str for dt in self._blocks.dtypes),', 'H5', 'FrameHE.__hash__')
 B('H5-eq-compare-dtype', ['C10'], 'series.py', 'SeriesHE.__eq__',
@@ -54,7 +54,7 @@ N('H-other-first', ['C10'], 'frame.py', 'Frame.equals',
 N('H-property-vs-slot', ['C10'], 'series.py', 'Series.equals',
   'self._name != other._name', 'self.name != other.name')
 N('H-identity-is', ['C10'], 'index.py', 'Index.equals',
-  'if id(other) == id(self):', 'if other is self:')
+  'if skipna and id(other) == id(self):', 'if skipna and other is self:')
 
 B('H5-hash-through-tolist', ['C10'], 'frame.py', 'FrameHE.__hash__',
   'tuple(self.index.values),', 'tuple(self.index.values.tolist()),', 'H5', 'FrameHE.__hash__')
@@ -978,3 +978,11 @@ B('NM-ih-roll-name-dropped', ['C08'], 'index_hierarchy.py', 'IndexHierarchy.roll
   '                name=self._name,\n', '', 'G.index-rebuild-carries-name', 'roll')
 N('NM-series-insert-name-property', ['C08'], 'series.py', 'Series._insert',
   '                name=self._index._name,\n', '                name=self._index.name,\n')
+
+# ---------------------------------------------------------------------------------- identity shortcut honours skipna (C10)
+B('IS-series-identity-unconditional', ['C10'], 'series.py', 'Series.equals',
+  'if skipna and id(other) == id(self):', 'if id(other) == id(self):', 'I.equals-identity-shortcut-skipna', 'equals')
+B('IS-typeblocks-identity-or', ['C10'], 'type_blocks.py', 'TypeBlocks.equals',
+  'if skipna and id(other) == id(self):', 'if skipna or id(other) == id(self):', 'I.equals-identity-shortcut-skipna', 'equals')
+N('IS-frame-identity-nested', ['C10'], 'frame.py', 'Frame.equals',
+  '        if skipna and id(other) == id(self):\n            return True\n', '        if skipna:\n            if id(other) == id(self):\n                return True\n')
